@@ -29,6 +29,7 @@ fn cfg_for(role: Role, script: Vec<SenderKind>, enumerate: bool) -> WalkCfg {
         allow_ready: false,
         allow_local_failures: false,
         manual_release: true,
+        allow_not_ready: false,
         partial_progress_pct: 0,
         enumerate,
         script,
